@@ -1,2 +1,5 @@
 import FpgoVerif.Props.C02
 /-! `#print axioms` for every property theorem of C02; parsed by `check`. -/
+#print axioms FpgoVerif.C02.C02_table_methods
+#print axioms FpgoVerif.C02.C02_table_int
+#print axioms FpgoVerif.C02.C02_int_to_int
